@@ -148,6 +148,13 @@ def run(P, rep, tier):
         for f in closure(P, m, wcls):
             if f.cls is wcls and f not in funcs and _encodes_newline(f, newline_consts):
                 funcs.append(f)
+    # any other function of the package that encodes a newline constant itself
+    for f in P.all_functions():
+        if f in funcs or f is strip or f.module.name.endswith('pygments_lexer'):
+            continue
+        txt = [norm(n) for n in walk_no_nested(f.node) if isinstance(n, ast.Call) and isinstance(n.func, ast.Attribute) and n.func.attr == 'encode']
+        if any('NEWLINE_FORMATS' in t or t.startswith(("'\\n'", "'\\r\\n'", '"\\n"')) for t in txt):
+            funcs.append(f)
     n_sites = 0
     for f in funcs:
         if not _encodes_newline(f, newline_consts):
@@ -188,6 +195,9 @@ def _route_check(P, f, strip, consts):
     """For every path of f: each .encode(E) on a newline value must be handed
     to strip_bom together with the same E, and must not be used otherwise."""
     I = Interp(P)
+    from sa import summary
+    I.stubs.update(summary.stubs_for(P, [P.func('pydiffx.utils.text', 'split_lines'),
+                                        P.func('pydiffx.utils.unified_diffs', 'get_unified_diff_hunks')]))
     params = f.params()
     out = {}
 
@@ -196,6 +206,23 @@ def _route_check(P, f, strip, consts):
         for p in params:
             if p == 'self':
                 from sa.values import AObj
+                dom = None
+                if f.module.name == 'pydiffx.dom.objects':
+                    from sa.dom import DomRoles
+                    D_ = DomRoles(P)
+                    objs = D_.build_tree(I)
+                    dom = objs.get(f.cls.name)
+                    if dom is not None:
+                        for o_ in objs.values():
+                            if 'options' in o_.attrs:
+                                o_.attrs['options'] = ADict({}, open_=True, taint=['ARG'], name='options')
+                                o_.attrs['options'].valkinds = frozenset(['str'])
+                            if '_content' in o_.attrs and o_.cls.name == 'DiffXFileDiffSection':
+                                o_.attrs['_content'] = Unk('diff', kinds=['bytes'], taint=['ARG'])
+                                o_.attrs['_content'].facts.add('truthy')
+                        I.frames = []
+                        args.append(dom)
+                        continue
                 o = AObj(f.cls)
                 o.attrs['_stack'] = AList([ADict({'encoding': Unk('cur', kinds=['str'], taint=['ARG'])})])
                 args.append(o)
